@@ -656,6 +656,7 @@ var guardTable = []guardSpec{
 	{"client", "database", "deferUpdates", "cacheMutex", ""},
 	{"client", "database", "deferredUpdates", "cacheMutex", ""},
 	{"client", "database", "monitors", "monitorsMutex", ""},
+	{"client", "database", "lastTransactionIDs", "lastTransactionIDsMutex", ""},
 	{"client", "ovsdbClient", "rpcClient", "rpcMutex", ""},
 	{"client", "ovsdbClient", "connected", "rpcMutex", ""},
 	{"client", "ovsdbClient", "endpoints", "rpcMutex", ""},
